@@ -20,8 +20,9 @@ Proved, for all values in range / all lists:
        the map list back, ends in exactly the ClassManager state the tables denote and `parseDex`
        returns the declared view; built from `string_table_from_file` … `class_defs_from_file`
        (one per section, composition of the L1 round trips), the load order of C07 and
-       `view_of_tables`.  Restriction: code items without tries (try/handler contents are C08's
-       subject).  Non-vacuity: a 636-byte DEX written by harness/dexasm.py (Proof/DexExample.lean).
+       `view_of_tables`.  Code items with or without tries (the try items and the
+       encoded_catch_handler_list of AgVerif.Spec.Tries are read past; their contents are C08's
+       subject).  Non-vacuity: a 692-byte DEX written by harness/dexasm.py (Proof/DexExample.lean).
 -/
 import AgVerif.Proof.DexFile
 import AgVerif.Proof.DexLoadView
@@ -229,7 +230,8 @@ theorem class_data_from_file (file : Bytes) (L : Layout) (T : Tables) (e : LoadO
     (henc : Encodes file L T) (he : L.sec 0x2000 = some e) (cm : CM) :
     step file cm e = .ok { cm with classData := some (cdTab T L) } := step_classData henc he cm
 
-/-- CODE_ITEM: the code items keyed by their (4-aligned) offsets -/
+/-- CODE_ITEM: the code items (header and instructions; try items and handler lists of any valid
+    encoding are read past) keyed by their (4-aligned) offsets -/
 theorem code_from_file (file : Bytes) (L : Layout) (T : Tables) (e : LoadOrder.MapEntry)
     (henc : Encodes file L T) (hwf : WF T L) (he : L.sec 0x2001 = some e) (cm : CM) :
     step file cm e = .ok { cm with codes := some (codeTab T L) } := step_codes henc hwf he cm
@@ -420,7 +422,8 @@ example : ValidMethodKey (ascii "LA;", ascii "<init>", ascii "(I J)V") :=
 example : ((allFields witness).map FieldV.triple).Nodup := by decide +kernel
 
 /-- a real DEX file (harness/dexasm.py: class `LFoo;` implements `Ljava/lang/Runnable;`, source file,
-    two fields, three methods with code; map entries also for the header and the map list itself)
+    two fields, three methods with code, one with a try block, a typed handler and a catch-all; map
+    entries also for the header and the map list itself)
     encodes well-formed tables, so `parse_encode` applies to it … -/
 example : WF Example.T Example.L ∧ Encodes Example.file Example.L Example.T := ⟨Example.wf, Example.encodes⟩
 example : parseDex Example.file = .ok (declared Example.T Example.L) :=
@@ -431,7 +434,7 @@ example : (declared Example.T Example.L).classes.map (fun c => [c.name, c.super]
 example : (allFields (declared Example.T Example.L)).map (fun f => [f.cls, f.name, f.typ]) =
     [[ascii "LFoo;", ascii "X", ascii "I"], [ascii "LFoo;", ascii "y", ascii "J"]] := by decide +kernel
 example : (allMethods (declared Example.T Example.L)).map (fun m => [m.name, m.desc] ++ (m.code.map (·.insns)).toList) =
-    [[ascii "<init>", ascii "()V", [112, 16, 3, 0, 0, 0, 14, 0]], [ascii "f", ascii "(I J)I", [18, 16, 15, 0]],
+    [[ascii "<init>", ascii "()V", [112, 16, 3, 0, 0, 0, 14, 0]], [ascii "f", ascii "(I J)I", [18, 16, 15, 0, 13, 1, 18, 32, 15, 0, 18, 48, 15, 0]],
      [ascii "run", ascii "()V", [14, 0]]] := by decide +kernel
 
 end AgVerif.C05
